@@ -84,6 +84,21 @@ PROPS = {
         ],
         "gen": ["EffectOrder"],
     },
+    "C08": {
+        "level_text": "Lean 4 theorems over an executable model of what compile_context_bundle_for_run computes from a thread's frames (cut point, recent messages with the reply of the run that answered each, summary checkpoints selected by halving, strategy, logged decision): for EVERY history — the selected messages are exactly the most recent ones in range (a suffix of the in-range messages, min(limit, available) of them, oldest first, all after the selected summary and at or before the cut); the cut point is the frame before the next message after the triggering message, or the head; the summary references are at most three cumulative checkpoints, ascending, halving, latest frame per to_seq, ending at the latest; the messages+runs projection and any suffix window holding enough (or all) in-range messages give the same bundle as the whole thread (which internal read path supplied the frames does not matter). Frames appended after a fixed cut point: the FULL statement is proved for the repaired semantics and proved FALSE of the code as it is (a checkpoint frame appended after the cut is eligible when its to_seq is at or before it; checked witness, recorded known finding), with the exact partial statement proved for the code as it is. Tied by correspondence on every run: thread histories written frame by frame into a real log (messages, runs with session streams, reply text and snapshots, cumulative and legacy checkpoints of any to_seq, side-effect / cursor / job frames), the real run-time compile entry point (cfg-exported) evaluated with no caches, rebuilt caches, random cache files removed, after later appends and under a racing writer, every result compared with the model on the truth frames and with each other. One defect found and repaired: without the full sidecar the cut point was taken from the messages+runs sidecar's last seq (fix: commit).",
+        "level_note": "Lean kernel; ids, contents and texts are numbers in the model; reply aggregation (snapshot, else session replay) is an oracle function of the model — a stale-but-well-formed snapshot is a cache fault covered under C04; bundle serialisation, artifact writing and the provider item rendering are glue covered only by the correspondence run; the tail-window byte budgets are not in this model (C04).",
+        "technique": "Lean 4 proof (list lemmas: suffix/prefix independence, halving hierarchy; decide-checked counterexample) + differential correspondence with the real compile entry point across cache states, later appends and a racing writer",
+        "design_ref": "§5 C08",
+        "trusted_base": COMMON_TB + [
+            "hooks: ripd::verif_export::session::compile_for_run (the crate-private compile entry point)",
+            "harness: raw history writer through rip_log::EventLog::append with rip_kernel event types",
+        ],
+        "assumptions": [
+            "thread streams are valid (frame i carries seq i: C01) and event ids are unique",
+            "known finding: a compaction checkpoint appended after the cut point changes the result (known_findings.json); an existing test asserts that behaviour",
+        ],
+        "gen": [],
+    },
     "C09": {
         "level_text": "Lean 4 theorems over an executable model of cut points, planning, the auto job and the scheduler decision as functions of the thread's truth frames: cut points are exactly the k*stride-th messages (seq and id of that message), the latest multiples first, at most clamp(limit,1,32); a cut point is checkpointed exactly when a checkpoint frame for that seq exists, the latest by stream order winning; non-message frames do not move cut points; the plan is the unchecked cut points among the latest 32, capped; an auto run creates precisely the planned checkpoints in sorted order between exactly one job-spawned and one job-ended frame, continuing the numbering; with nothing to do or as a dry run it appends nothing; after a run every planned cut is checkpointed; scheduler: silent on noop/dry run, one decision frame when a job is in flight, job-spawned then decision otherwise. Tied to the code by differential correspondence: random histories (messages interleaved with other frames, manual checkpoints on and off boundaries, jobs left in flight) x operation sequences with stride / limit / max_new in {None,0,1,2,3,7,32,33,10000} and all boolean flags, responses (message count, every cut point field, planned list, decision/status) and the kinds/seqs/to_seq of appended frames compared with the compiled model; plus oracles: summaries readable with matching coverage, manual checkpoints only on message boundaries, and the same job on two byte-copies of a store writes the same summary text.",
         "level_note": "Lean kernel; the summary renderer is treated as a deterministic function and checked by the two-copies oracle (artifact ids minted during a run are canonicalised by position); the in-flight scan is modelled over the whole thread (the code scans a 512-frame tail; histories stay below it); cache fast paths inside cut_points are the subject of C04.",
